@@ -251,11 +251,21 @@ def rule_trivia(ck, facts, loss=True):
             ck.bad(R, "overwrite|%s|insert" % f.short, "pre-parser: the pending trivia is stored with `insert`, which replaces whatever trivia that token already had in the map (a token that received trailing trivia at an earlier line break loses it); the other sinks extend the entry" , f.where(t))
     ck.floor(R, "trivia_sinks", sinks, 3)
     ck.ok(R, "sinks|%s" % f.short, {"pending_local": pl, "append/extend sinks": sinks})
-    if loss:
-        rule_partition(ck, facts, f)
+    # C13 asks that every token is recorded exactly once (partition); which side a comment hangs on is the formatter's
+    # concern (C14: its printers read only the trailing trivia of the braces they write themselves)
+    rule_partition(ck, facts, f, partition=loss, flag_fresh=not loss)
 
 
-def rule_partition(ck, facts, f):
+def _flag_verdict(ck, R, f, flags, stale):
+    ck.floor(R, "per_token_flags", len(flags), 1)
+    names = f.dbg_names()
+    if stale is None:
+        ck.ok(R, "flag-fresh|%s" % f.short, {"flags": sorted(names.get(l, "_%d" % l) for l in flags)})
+    else:
+        ck.bad(R, "flag-fresh|%s" % f.short, "pre-parser: an iteration that records a token leaves the per-token flag `%s` as the previous token set it (path conditions %s): after a line break followed by a comment the flag still says `line break`, so the comment is attached as leading trivia of the next token instead of trailing trivia of the previous one — and the printer does not print the leading trivia of the braces and commas it writes itself" % (names.get(stale[0], "_%d" % stale[0]), stale[1]), f.where())
+
+
+def rule_partition(ck, facts, f, partition=True, flag_fresh=False):
     """every token is either trivia (recorded as pending), or a syntax token (its index recorded), or the end marker"""
     R = "C13.trivia"
     loops = natural_loops(f)
@@ -275,6 +285,18 @@ def rule_partition(ck, facts, f):
             if v["n"] == "Eof":
                 eof = int(v["d"])
     ck.require(R, eof is not None, "anchor|eof-kind", "TokenKind::Eof not found")
+    # per-token state flags of the loop: bool locals that are assigned constants inside the loop and tested inside it
+    # (`last_was_linebreak`).  They describe the token just seen, so every iteration that records a token must
+    # (re)assign them; a path that leaves one stale makes the next token's trivia attach to the wrong side.
+    flags = set()
+    for l, ty in enumerate(f.d["locals"]):
+        if ty != "bool":
+            continue
+        consts = [b for b in body for st in f.stmts(b) if st[KIND] == "a" and st[4] == [l, []] and st[5][0] == "use" and st[5][1][0] == "c"]
+        tested = any(f.term(b)[KIND] == "switch" and f.term(b)[4][0] in ("cp", "mv") and f.term(b)[4][1] == [l, []] for b in body) or any(st[KIND] == "a" and st[5][0] == "use" and st[5][1][0] in ("cp", "mv") and st[5][1][1] == [l, []] for b in body for st in f.stmts(b))
+        if len(consts) >= 2 and tested:
+            flags.add(l)
+    stale = None
     n_iter = 0
     n_skip = 0
     bad = None
@@ -283,6 +305,10 @@ def rule_partition(ck, facts, f):
             continue
         n_iter += 1
         if any(e[0] == "call" and e[1].split("::")[-1] == "push" for e in p.events):
+            for l in flags:
+                v = p.env.get(l)
+                if not (isinstance(v, tuple) and v and v[0] == "k"):
+                    stale = (l, [(show(c)[:60], vv) for c, vv, pos in p.conds][-3:])
             continue
         n_skip += 1
         pinned = False
@@ -298,6 +324,10 @@ def rule_partition(ck, facts, f):
         if not pinned:
             bad = [(show(c)[:80], v) for c, v, pos in p.conds][-2:]
     ck.floor(R, "preparse_iteration_paths", n_iter, 8)
+    if flag_fresh:
+        _flag_verdict(ck, R, f, flags, stale)
+    if not partition:
+        return
     if bad is None:
         ck.ok(R, "partition|%s" % f.short, {"iteration_paths": n_iter, "paths_recording_nothing": n_skip, "all_pinned_to": "TokenKind::Eof"})
     else:
@@ -414,9 +444,51 @@ def rule_token_extent(ck, facts):
     ck.floor(R, "token_constructions_checked", n, 5)
 
 
+def rule_comment_lexer(ck, facts, tier="quick", R="C13.comment-lexer"):
+    """the extent of a comment token: `//` to the end of the line, `/*` to the first `*/`"""
+    from ..rules import lexmodel
+
+    ck.rule(R, "the combinator expression the tokenizer builds for comments (extracted from the MIR of the function that builds it; every node is a call) is given its PEG meaning and evaluated — the model, not the program — on every string over {'/', '*', 'a', newline} up to a length bound: it must consume exactly `//` up to (not including) the next line break or the end, resp. `/*` up to and including the first `*/`, and fail otherwise. A scan that lets `*` swallow the following character misses a terminator preceded by an even run of stars (`/** x **/`), so the comment runs on into the code")
+    lang = facts.crate(roles.LANG)
+    cands = []
+    for f in lang.fns:
+        if "::parser::tokenizer::" not in f.path or f.kind != "fn" or f.d["argc"] != 0:
+            continue
+        sx = SymEx(f, max_paths=8, facts=facts)
+        try:
+            paths = sx.run(0)
+        except PathLimit:
+            paths = sx.paths
+        rets = [p.env.get(0) for p in paths if p.end == "return"]
+        if len(rets) != 1 or rets[0] is None:
+            continue
+        txt = repr(rets[0])
+        if "SingleLineComment" in txt or "MultiLineComment" in txt:
+            cands.append((f, rets[0]))
+    ck.require(R, len(cands) == 1, "anchor|comment-parser", "expected one tokenizer function building the comment combinators, found %d" % len(cands))
+    if len(cands) != 1:
+        return
+    f, expr = cands[0]
+    try:
+        tree = lexmodel.build(expr)
+    except lexmodel.Unmodelled as e:
+        ck.bad(R, "unmodelled|%s" % f.short.split("::")[-1], "%s builds its comment parser with %s, which the combinator model does not cover: the extent of comment tokens cannot be decided (failing closed)" % (f.short, e), f.where())
+        return
+    maxlen = 9 if tier == "thorough" else 7
+    diff, n = lexmodel.check_comments(tree, maxlen=maxlen)
+    ck.setcount("comment_lexer_strings", n)
+    if diff is None:
+        ck.floor(R, "comment_lexer_strings", n, 20000)
+        ck.ok(R, "extent|%s" % f.short.split("::")[-1], {"strings": n, "alphabet": "/ * a \\n", "max_length": maxlen})
+    else:
+        s, m, sp = diff
+        ck.bad(R, "extent|%s" % f.short.split("::")[-1], "%s: on the text %r the comment combinators consume %s but a comment token there is %s: comment tokens no longer end where the comment ends (the rest of the line / file is swallowed or the `/*` does not lex at all), so adding or editing a comment changes the program" % (f.short, s, "nothing (no match)" if m is None else "%d characters" % m, "no comment" if sp is None else "%d characters long" % sp), f.where())
+
+
 def run(ck, facts, tier):
     pm = ParserModel(facts)
     ck.floor("C13.anchor", "cst_parser_bodies", len(pm.fns), 120)
+    rule_comment_lexer(ck, facts, tier)
     rule_cursor(ck, facts, pm)
     rule_balance(ck, facts, pm)
     rule_root(ck, facts, pm)
